@@ -61,7 +61,7 @@ def run(prop: str, ctx) -> dict:
     tmp = Path(tempfile.mkdtemp(prefix="physt-thorough-"))
     try:
         twins = {}
-        for kind in ("unparse", "pad", "rename", "kwshuffle", "ifswap"):
+        for kind in ("unparse", "pad", "rename", "kwshuffle", "ifswap", "nodoc", "swapassign"):
             d = tmp / kind / "src" / "physt"
             d.parent.mkdir(parents=True)
             make_twin(SRC, d, kind)
